@@ -611,6 +611,7 @@ def run(ctx):
         k = 0
         failing_traces = set()
         clause_counts = {}
+        first_diags = {}
         for shape in shards_by_shape:
             (done, fxs, behs) = shards_by_shape[shape]
             for (path, n, _e) in done:
@@ -620,6 +621,8 @@ def run(ctx):
                     raise tlc.TlcError('Trace_Stream ended %d of %d traces of %s' % (len(set(res['end'])), n, path))
                 ended += n
                 ctx.note('events_outside_model', len(res['skip']))
+                if shape not in first_diags:
+                    first_diags[shape] = res['diag'][:50]
                 for d in res['diag']:
                     ndiag += 1
                     (fi, bi) = [int(x) for x in d['tid'].split(':')]
@@ -646,6 +649,9 @@ def run(ctx):
             'transitions': transitions,
             'traces_validated_against_impl': ended,
             'exhaustive': True,
+            'exhaustive_scope': 'the reachable state graph of the bounded model (TLC, all invariants) and one '
+                                'replayed behaviour per transition of it on the image and added backings; longer '
+                                'histories are covered by the reduced-alphabet enumeration and seeded samples',
             'rule': 'states/transitions: complete reachable graph of MC_stream (full alphabet) for shapes %s, '
                     'invariants TypeOK, ResultWithinFile, ReadAtOwnOffset, TellEqualsModelOffset and action '
                     'properties StreamsIndependent, RefusedChangesNothing, ClosedRefused checked by TLC; '
@@ -660,15 +666,25 @@ def run(ctx):
             'failing_clause_counts': clause_counts,
         })
         ctx.note('diag_events', ndiag)
-        # a few actual cases
+        # a few actual cases: per shape the recorded trace with the most kinds of calls, and one
+        # trace on which clauses failed together with what TLC said about it
         for shape in shards_by_shape:
             (done, fxs, behs) = shards_by_shape[shape]
             with open(done[0][0]) as fh:
                 doc = json.load(fh)
-            for t in doc['traces'][:2]:
+            best = max(doc['traces'][:3000], key=lambda t: (len({e['a']['a'] for e in t['ev']}), len(t['ev'])))
+            picks = [(best, None)]
+            bad = [d for d in first_diags.get(shape, []) if d['tid'] in {t['id'] for t in doc['traces']}]
+            if bad:
+                t = [t for t in doc['traces'] if t['id'] == bad[0]['tid']][0]
+                picks.append((t, [d for d in bad if d['tid'] == t['id']]))
+            for (t, diags) in picks:
                 (fi, bi) = [int(x) for x in t['id'].split(':')]
-                ctx.sample({'shape': shape, 'fixture': fxs[fi].describe(), 'model_behaviour': behs[bi],
-                            'recorded': t['ev']})
+                smp = {'shape': shape, 'fixture': fxs[fi].describe(), 'model_behaviour': behs[bi],
+                       'recorded': t['ev']}
+                if diags is not None:
+                    smp['trace_stream_diag'] = diags
+                ctx.sample(smp)
         ctx.assumptions.extend([
             'TLC/SANY and the Json community module are trusted',
             'the harness locates returned bytes in the known content at unit-aligned positions; contents are '
